@@ -5,6 +5,7 @@ package harness
 // StreamManager against the scripted peer.
 
 import (
+	"strings"
 	"fmt"
 	"sync"
 	"testing"
@@ -94,6 +95,8 @@ func runC13(c c13Case) vh.Result {
 	}
 	var mu sync.Mutex
 	accepted := 0                  // connections accepted by the peer (all listeners)
+	t00 := time.Now()
+	var connLog []string // one line per accepted connection: when, which plan entry it got, how far the negotiation went
 	var plan []string              // behaviour for the next accepted connections: ok-resume ok-bind cut-* sasl-failure
 	sessions := make(chan *c13Session, 8)
 	var handler func(pc *peer.Conn)
@@ -119,7 +122,11 @@ func runC13(c c13Case) vh.Result {
 		case "sasl-failure":
 			script.Dev = map[string]peer.Dev{"auth": {Kind: "failure"}}
 		}
+		at := time.Since(t00).Round(time.Millisecond)
 		out := pc.Negotiate(script, 10*time.Second)
+		mu.Lock()
+		connLog = append(connLog, fmt.Sprintf("#%d +%v %s steps=%v established=%v", pc.Index, at, what, out.Steps, out.Established))
+		mu.Unlock()
 		if !out.Established {
 			pc.AfterFault(3 * time.Second)
 			return
@@ -309,7 +316,11 @@ func runC13(c c13Case) vh.Result {
 			got = accepted - acceptedBefore
 			mu.Unlock()
 			if got > len(l.Fails)+1 {
-				res.Fail("retry-after-permanent-error", "%s: credentials were rejected (permanent error) but %d further connection attempts followed", desc, got-len(l.Fails)-1)
+				time.Sleep(300 * time.Millisecond) // let the extra connection get as far as it gets, for the record
+				mu.Lock()
+				log := strings.Join(connLog, "; ")
+				mu.Unlock()
+				res.Fail("retry-after-permanent-error", "%s: credentials were rejected (permanent error) but %d further connection attempts followed; connections: %s", desc, got-len(l.Fails)-1, log)
 			}
 			if s := nextSession(10 * time.Millisecond); s != nil {
 				res.Fail("session-after-permanent-error", "%s: a session was established after the permanent error", desc)
@@ -346,7 +357,10 @@ func runC13(c c13Case) vh.Result {
 		got := accepted - acceptedBefore
 		mu.Unlock()
 		if got != len(l.Fails)+1 {
-			res.Fail("extra-connections", "%s: after %s %d connections reached the server, expected %d failing attempts and one session", desc, label, got, len(l.Fails))
+			mu.Lock()
+			log := strings.Join(connLog, "; ")
+			mu.Unlock()
+			res.Fail("extra-connections", "%s: after %s %d connections reached the server, expected %d failing attempts and one session; connections: %s", desc, label, got, len(l.Fails), log)
 		}
 		if s := nextSession(time.Millisecond); s != nil {
 			res.Fail("two-sessions", "%s: after %s a second session was established", desc, label)
